@@ -167,6 +167,42 @@ def main():
         run(sys.argv[2], sys.argv[3] if len(sys.argv) > 3 else "quick")
     elif sys.argv[1] == "wrun":
         run_in_worktree(sys.argv[2], sys.argv[3] if len(sys.argv) > 3 else "quick")
+    elif sys.argv[1] == "matrix":
+        # every stored change x the given seeds, quick tier, in scratch worktrees, 4 at a time
+        from concurrent.futures import ThreadPoolExecutor
+        seeds = sys.argv[2].split(",")
+        names = [n for n in sorted(os.listdir(SEEDED)) if os.path.exists(os.path.join(SEEDED, n, "meta.json"))]
+        jobs = [(n, sd) for n in names for sd in seeds]
+
+        def one(job):
+            n, sd = job
+            meta = json.load(open(os.path.join(SEEDED, n, "meta.json")))
+            pid = meta["property"]
+            wt = "/tmp/seedrun-%s-s%s" % (n, sd)
+            sh("git worktree add -q --detach %s HEAD" % wt, "/repo")
+            try:
+                rc, txt = sh("git apply %s" % os.path.join(SEEDED, n, "patch.diff"), wt)
+                env = dict(ENV, VERIF_REPO=wt, VERIF_SEED=sd, VERIF_NO_EVIDENCE="1")
+                p = subprocess.run("./check %s quick" % pid, cwd=ROOT, env=env, shell=True, stdout=subprocess.PIPE, stderr=subprocess.STDOUT, text=True, timeout=3600)
+                det = p.returncode == 1 and "VIOLATION" in p.stdout
+                for l in p.stdout.splitlines():
+                    if l.startswith("VIOLATION"):
+                        rp = l.split("replay=")[-1].strip()
+                        if os.path.exists(rp):
+                            os.remove(rp)
+                return n, sd, det, p.returncode
+            finally:
+                sh("git worktree remove --force %s" % wt, "/repo")
+
+        res = {}
+        with ThreadPoolExecutor(4) as ex:
+            for n, sd, det, rc in ex.map(one, jobs):
+                res.setdefault(n, {})[sd] = det
+                print(n, "seed", sd, "detected" if det else "MISSED rc=%s" % rc, flush=True)
+        sh("git worktree prune", "/repo")
+        json.dump(res, open(os.path.join(ROOT, "seeded", "matrix.json"), "w"), indent=1, sort_keys=True)
+        missed = [(n, sd) for n, r in res.items() for sd, d in r.items() if not d]
+        print("missed:", missed)
     elif sys.argv[1] == "runall":
         tier = sys.argv[2] if len(sys.argv) > 2 else "quick"
         for name in sorted(os.listdir(SEEDED)):
